@@ -369,7 +369,7 @@ func vfC10RunSequential(run *vfkit.Run, cs *vfC10Case) {
 		}
 		// wire == model (wait for the bytes the client has already written to arrive)
 		want := strings.Join(m.W, "")
-		vfWaitUntil(10*time.Second, func() bool { return len(strings.Replace(s.wire(), "\n", "", -1)) >= len(want) })
+		vfWaitUntil(4*time.Second, func() bool { return len(strings.Replace(s.wire(), "\n", "", -1)) >= len(want) })
 		gotW := strings.Replace(s.wire(), "\n", "", -1)
 		if gotW != want {
 			kind := "after-" + st.Op
@@ -582,7 +582,7 @@ func TestVf_C10(t *testing.T) {
 		wg.Add(1)
 		go func(wk int) {
 			defer wg.Done()
-			for c := wk; c < n; c += workers {
+			for c := wk; c < n && !run.Enough(); c += workers {
 				r := rand.New(rand.NewSource(vfkit.Seed()*15485863 + int64(c)))
 				if c%4 == 3 {
 					g := 2 + r.Intn(7)
